@@ -339,7 +339,8 @@ def limit_programs(thorough):
                 b'"\\q"', b'"\\x4"', b'"\\400"', b'"\\ud800"', b'"\\U00110000"', b"'a'", b'"\\\'"', b'"\xff"', b'"\\xff"']:
         out.append(("lit", b"print " + lit + b"\n"))
         out.append(("litname", b"def b " + lit + b" {}\n"))
-    for e in [b'"ab" * -1', b'"ab" * 0', b'"ab" * 1000', b'"" * 9223372036854775807', b'"ab" * 524288', b'"ab" * 524289',
+    for e in [b'"ab" * -1', b'"ab" * 0', b'"ab" * 1000', b'"" * 9223372036854775807', b'"ab" * 524289', b'"abcdefgh" * 131073',
+              b'"ab" * 524288' if thorough else b'"ab" * 5000',
               b"-9223372036854775807 - 1", b"(-9223372036854775807 - 1) / -1", b"(-9223372036854775807 - 1) * -1", b"1 / 0", b"1.0 / 0",
               b"0.0 / 0.0", b"1 / 0.0", b"-(0.0)", b"9223372036854775807 + 1", b"1e308 * 10", b"nil + 1", b'1 + "a"']:
         out.append(("op", b"print " + e + b"\n"))
